@@ -23,7 +23,15 @@ import (
 )
 
 const verifDir = "/verif"
-const repoDir = "/repo"
+
+// repoDir is the tree under check: /repo, or a scratch copy when VERIF_REPO is set (used to run deliberately broken
+// trees in parallel without touching /repo).
+var repoDir = func() string {
+	if d := os.Getenv("VERIF_REPO"); d != "" {
+		return d
+	}
+	return "/repo"
+}()
 
 type violation struct {
 	Sig    string          `json:"sig"`
@@ -123,6 +131,25 @@ func (b *builder) instrument() {
 	b.overlay = filepath.Join(b.scratch, "overlay.json")
 }
 
+// modfile writes a go.mod/go.sum pair for the harness module into the scratch directory: the harness sources stay
+// read-only, go.sum follows the repository's, and the replace directive points at the tree under check.
+func (b *builder) modfile() string {
+	mod := filepath.Join(b.scratch, "go.mod")
+	if _, err := os.Stat(mod); err == nil {
+		return mod
+	}
+	data, err := os.ReadFile(filepath.Join(verifDir, "harness", "go.mod"))
+	if err != nil {
+		fatal(2, "harness go.mod: %v", err)
+	}
+	text := strings.Replace(string(data), "=> /repo", "=> "+repoDir, 1)
+	os.WriteFile(mod, []byte(text), 0o644)
+	if sum, err := os.ReadFile(filepath.Join(repoDir, "go.sum")); err == nil {
+		os.WriteFile(filepath.Join(b.scratch, "go.sum"), sum, 0o644)
+	}
+	return mod
+}
+
 // build builds the harness binary (race or not) from the current /repo tree.
 func (b *builder) build(race bool) string {
 	key := "vh"
@@ -133,12 +160,9 @@ func (b *builder) build(race bool) string {
 		return p
 	}
 	hdir := filepath.Join(verifDir, "harness")
-	// keep go.sum in step with the repository
-	if data, err := os.ReadFile(filepath.Join(repoDir, "go.sum")); err == nil {
-		os.WriteFile(filepath.Join(hdir, "go.sum"), data, 0o644)
-	}
+	modfile := b.modfile()
 	bin := filepath.Join(b.scratch, key)
-	args := []string{"build", "-tags", "verif", "-overlay", b.overlay, "-o", bin}
+	args := []string{"build", "-modfile", modfile, "-tags", "verif", "-overlay", b.overlay, "-o", bin}
 	if race {
 		args = append(args, "-race")
 	}
@@ -157,7 +181,7 @@ func (b *builder) buildPlain() string {
 		return p
 	}
 	bin := filepath.Join(b.scratch, "vplain")
-	out, err := run(filepath.Join(verifDir, "harness"), goEnv(), "go", "build", "-tags", "verif", "-o", bin, "./cmd/vplain")
+	out, err := run(filepath.Join(verifDir, "harness"), goEnv(), "go", "build", "-modfile", b.modfile(), "-tags", "verif", "-o", bin, "./cmd/vplain")
 	if err != nil {
 		fatal(2, "plain harness build failed: %v\n%s", err, out)
 	}
